@@ -48,6 +48,9 @@ def _tr(s, n=TRUNC):
 
 def first_error(diag):
     for l in (diag or "").split("\n"):
+        if "multiple definition" in l or "duplicate symbol" in l or "undefined reference" in l:
+            return l.strip()[:400]
+    for l in (diag or "").split("\n"):
         if " error" in l or "error:" in l:
             return l.strip()[:400]
     return (diag or "").strip().split("\n")[0][:400]
@@ -1100,11 +1103,10 @@ class P2Gen:
             self.out(f"{p}.fmod", "au::fmod(a, b)", None, "math")
         if "rem" in ch:
             self.out(f"{p}.remainder", "au::remainder(a, b)", None, "math")
-        if "round" in ch and r is not None and r != "big" and (isf or isinstance(r, Fraction) or True):
-            if isf or isinstance(r, Fraction) or r == "irrational":
-                self.out(f"{p}.round_in", f"au::round_in(au::{vm}, a)", None, "math")
-                self.out(f"{p}.floor_as", f"au::floor_as(au::{vm}, a)", None, "math")
-                self.out(f"{p}.ceil_in_i", f"au::ceil_in<long long>(au::{vm}, b)", None, "math")
+        if "round" in ch and r is not None and r != "big":
+            self.out(f"{p}.round_in", f"au::round_in(au::{vm}, a)", None, "math")
+            self.out(f"{p}.floor_as", f"au::floor_as(au::{vm}, a)", None, "math")
+            self.out(f"{p}.ceil_in_i", f"au::ceil_in<long long>(au::{vm}, b)", None, "math")
         if "copysign" in ch and isf:
             self.out(f"{p}.copysign", "au::copysign(b, a)", None, "math")
             self.out(f"{p}.copysign_raw", f"au::copysign(b, {T}(-1))", None, "math")
@@ -1150,6 +1152,10 @@ class P2Gen:
     def rep_function(self, rep, budget):
         r = self.rng
         self.begin("rep_" + rep[0])
+        if not self.units:
+            x = self.rand_val(rep)
+            self.out(f"{rep[0]}.unitless", f"au::make_quantity<au::UnitProductT<>>({self.ld(rep, x)})", None, "construct")
+            return
         sel_units = [u for u in self.units if u["selected"]] or self.units
         pool = list(self.units)
         # basics on a few units (selected ones first)
@@ -1193,11 +1199,11 @@ class P2Gen:
         for u in us:
             self.out(f"label.{u['mk']}", f"au::unit_label(au::{u['mk']})", None, "label")
         names = [n for n in self.prefixes]
-        for _ in range(4):
+        for _ in range(4 if self.units and names else 0):
             u = r.choice(self.units)
             pf = r.choice(names)
             self.out(f"label.{pf}.{u['mk']}", f"au::unit_label(au::{pf}(au::{u['mk']}))", None, "label")
-        for _ in range(4):
+        for _ in range(4 if self.units else 0):
             u, w = r.choice(self.units), r.choice(self.units)
             form = r.choice(["au::{a} * au::{b}", "au::{a} / au::{b}", "au::pow<2>(au::{a}) / au::{b}",
                              "au::squared(au::{a}) * au::inverse(au::{b})", "au::cubed(au::{a})", "au::root<2>(au::{a}) * au::{b}",
